@@ -454,6 +454,9 @@ impl Terminal for UnixTerminal {
 
             // process signals
             if signal.is_readable() {
+                // all flagged signals are consumed before a termination signal is reported,
+                // the signal pipe is already drained and would not announce them again
+                let mut quit = false;
                 for signal in self.signal_delivery.pending() {
                     match signal {
                         SIGWINCH => {
@@ -464,11 +467,12 @@ impl Terminal for UnixTerminal {
                                 self.write_all(GET_TERM_SIZE)?;
                             }
                         }
-                        SIGTERM | SIGINT | SIGQUIT => {
-                            return Err(Error::Quit);
-                        }
+                        SIGTERM | SIGINT | SIGQUIT => quit = true,
                         _ => {}
                     }
+                }
+                if quit {
+                    return Err(Error::Quit);
                 }
             }
 
